@@ -1,7 +1,7 @@
 """Suite table: which TLC models exist, with which constants per tier, and which
 properties run which suites and drivers (DESIGN.md section 6)."""
 
-PARSE_INVS = ["EmitNonString", "C02C05_Generic", "C02C05_Typed", "C01_RoundTrip", "C03_Render", "C04_Valid", "C10_Rebuild",
+PARSE_INVS = ["EmitNonString", "C02C05_Generic", "C02C05_Typed", "JudgeOrderFree", "C01_RoundTrip", "C03_Render", "C04_Valid", "C10_Rebuild",
               "C07_Structure", "C08_TypedVsGeneric", "C08_UnknownType", "Emit"]
 
 
@@ -32,7 +32,7 @@ def format_suite(mode_q, mode_t):
                 describe="one component position holds a character / pair of characters; build, Display, parse back")
 
 
-BUILDER_INVS = ["C09_Faithful", "C09_Expected", "C04_Valid", "C09_ParseBack", "C03_Render", "C10_Rebuild",
+BUILDER_INVS = ["C09_Faithful", "C09_Expected", "C09_BuildDefects", "C04_Valid", "C09_ParseBack", "C03_Render", "C10_Rebuild",
                 "C09_Commute", "C09_Override", "C13_Finish", "EmitBuild"]
 
 
@@ -124,7 +124,7 @@ SUITES.update({
                             "equal iff same canonical string; order laws incl. transitivity over all triples"),
 })
 
-SPELL_INVS = ["C02C05_Writer", "OraclesAgree", "C01_RoundTrip", "Emit"]
+SPELL_INVS = ["C02C05_Writer", "OraclesAgree", "JudgeOrderFree", "C01_RoundTrip", "Emit"]
 SUITES.update({
     "SPELL": dict(module="MC_Spell", kind="bfs", invariants=SPELL_INVS, replay=["--serde"],
                   quick=dict(MODE='"spell"', K=2), thorough=dict(MODE='"spell"', K=3),
